@@ -225,9 +225,17 @@ def merge_states(states, rets=None, base=None):
         return states[0], (rets[0] if rets else None)
     pcs = [s.pc for s in states]
     k = common_prefix(pcs)
-    conds = [mk_and([x for x in p[k:] if not isinstance(x, QForall)]) for p in pcs]
+    # facts about uninterpreted functions / fresh definitional symbols are valid on every path: they are hoisted, not
+    # folded into the branch conditions (keeps the ite conditions of merged values small)
+    ax = getattr(base.__self__, 'axiom_ids', set()) if base is not None and hasattr(base, '__self__') else set()
+    hoisted = []; seen_h = set()
+    for p in pcs:
+        for x in p[k:]:
+            if is_z3(x) and x.get_id() in ax and x.get_id() not in seen_h:
+                seen_h.add(x.get_id()); hoisted.append(x)
+    conds = [mk_and([x for x in p[k:] if not isinstance(x, QForall) and not (is_z3(x) and x.get_id() in ax)]) for p in pcs]
     m = State()
-    m.pc = list(pcs[0][:k]) + [z3.Or(*conds)]
+    m.pc = list(pcs[0][:k]) + hoisted + [z3.Or(*conds)]
     for c_, p in zip(conds, pcs):
         for x in p[k:]:
             if isinstance(x, QForall): m.pc.append(x.guarded(c_))
